@@ -8,7 +8,7 @@ CONSTANTS
   InitWords <- NoInit
   InitCap = 2
   Inc = 2
-  MaxWords = 3
+  MaxWords = 4
   Updates <- OnlyFalse
   WithUse = FALSE
   Deviations <- NoDev
